@@ -118,6 +118,8 @@ let large_budget = try float_of_string (Sys.getenv "VERIF_C08_LARGE_BUDGET") wit
    such cases with precisions of hundreds of digits); afterwards the envelope decides *)
 let large_total = try float_of_string (Sys.getenv "VERIF_C08_LARGE_TOTAL") with _ -> 240.0
 let large_spent = ref 0.0
+(* passes of the retry loop of the repaired ln/exp route the model may take (the guard digits double with every pass) *)
+let large_passes = nat_of_int 8 O
 (* Some conv = what the as-is model of Context::convert_base predicts on every route; None = not evaluated *)
 let full_asis b nb p m s e : conv option =
   match convert_base_asis4 b nb p m s e with
@@ -125,7 +127,7 @@ let full_asis b nb p m s e : conv option =
       if Zar.gt p (zi 700) || !large_spent > large_total then None
       else begin
         let t0 = Unix.gettimeofday () in
-        let r = with_budget large_budget (fun () -> convert_base_full_asis4 f32 word_bits fuel b nb p m s e) in
+        let r = with_budget large_budget (fun () -> convert_base_full_asis5 f32 word_bits large_passes fuel b nb p m s e) in
         large_spent := !large_spent +. (Unix.gettimeofday () -. t0);
         (match r with Some CLarge -> None | r -> r)
       end
@@ -274,54 +276,22 @@ let judge op args got =
                  | Some _ -> Some false
                  | None -> None) in
              let fid = (match asis_same with Some true -> " asis=same" | Some false -> " asis=diff" | None -> "") in
-             if route <> "large" && Zar.sign s <> 0 then begin
-               (* every route that needs no logarithm (same base, power-related bases, |e| <= 38, and since F10 bases with a
-                  common root) computes the value exactly and rounds ONCE: the answer must be THE specified float
+             if Zar.sign s <> 0 then begin
+               (* every route computes the value exactly and rounds ONCE, or - the ln/exp route since the repair of F05
+                  (round 5) - returns an approximant's rounding only when both ends of its error interval round alike
+                  and otherwise evaluates the power exactly / takes more digits: the answer must be THE specified float
                   (ConvBaseModel4.convert_base_spec: the p-digit float the mode names for s * B^e, normal form, truthful
-                  flag; ConvBaseProof4.convert_base4_spec) - in particular it fits the target precision *)
+                  flag; ConvBaseProof4.convert_base4_spec, LargeExpAsis5Proof.convert_large_loop_returns) *)
                let ((ws, we), wf) = convert_base_spec b nb rp m s e in
                let want = Printf.sprintf "ok %s %s %s %s" (hx ws) (hx we) (flag_tok wf) (hx rp) in
+               let sub = if route = "large" then
+                   (if large_exact_window nb rp s e then "-window" else "-far") else "" in
                if split_ws want = got && not full then { v = "fail"; extra = "specification-outside-the-contract(check broken)" }
-               else expect ~extra:("cls=" ^ cls ^ " path=" ^ route ^ fid) want got
+               else expect ~extra:("cls=" ^ cls ^ " path=" ^ route ^ sub ^ fid) want got
              end
              else if full then pass ~extra:("cls=" ^ cls ^ " path=" ^ route ^ fid) ()
-             else if route = "large" && Zar.leq (dlen nb rs) (Zar.succ rp) then begin
-               (* open finding: the ln/exp route is not faithful.  The class is the input route + exactly the answer
-                  the as-is model of the route predicts (Float/LargeExpAsis.v on top of the C11 as-is models of ln /
-                  ln_base / exp).  Only where the model was not evaluated (budget) the class falls back on the
-                  accuracy the STRUCTURE of the route guarantees when ln and exp err by at most k_contract units
-                  in the last place of the work precision (LargeExpAsisProof.convert_large_route_error_wp,
-                  decided by large_route_check_wp, large_route_check_wp_sound) *)
-               let (n, dv) = (match x with XRat (n, d) -> (n, d) | _ -> (Zar.zero, Zar.one)) in
-               let within = if check_within_ulp nb rp x rs re then "within-1ulp" else "off-by-1ulp-or-more" in
-               let bound = (match large_route_check_wp k_contract b nb rp (large_work_precision_gen rp e b nb) e n dv rs re with
-                   | Some true -> "inside-proved-bound" | None -> "no-accuracy-guaranteed" | Some false -> "outside-proved-bound") in
-               match asis_same with
-               | Some true ->
-                   (* the implementation returned exactly what the as-is model of the route predicts *)
-                   { (known "convert_base_large_exp_not_faithful" "contract") with
-                     extra = "want=contract cls=large-" ^ within ^ " path=large-asis-" ^ bound ^ fid }
-               | Some false ->
-                   { v = "fail"; extra = "want=contract differs-from-the-as-is-model-of-the-ln/exp-route cls=" ^ cls ^ " path=" ^ route ^ fid }
-               | None ->
-                   (* model not evaluated (budget): the envelope the structure theorem gives *)
-                   if bound = "outside-proved-bound" then
-                     { v = "fail"; extra = "outside-the-proved-bound-of-the-ln/exp-route cls=" ^ cls ^ " path=" ^ route }
-                   else
-                     { (known "convert_base_large_exp_not_faithful" "contract") with
-                       extra = "want=contract cls=large-" ^ within ^ " path=large-envelope-" ^ bound }
-             end
              else { v = "fail"; extra = "contract-violated cls=" ^ cls ^ " path=" ^ route }
            end
-       | "panic" :: cl :: _ when route = "large" && Zar.sign (match fixed_p with Some p -> p | None -> p0) > 0
-                                   && String.length cl >= 12 && String.sub cl 0 12 = "Undocumented" ->
-           (* a debug assertion inside the ln/exp route: in the class only if the as-is model predicts it *)
-           let p = (match fixed_p with Some p -> p | None -> if Zar.sign p0 = 0 then Zar.zero else base_prec_spec b nb p0) in
-           (match full_asis b nb p m s e with
-            | Some (CPanic Undocumented) ->
-                { (known "convert_base_large_exp_not_faithful" "contract") with extra = "want=contract cls=large-debug-assertion path=large-asis asis=same" }
-            | None -> { (known "convert_base_large_exp_not_faithful" "contract") with extra = "want=contract cls=large-debug-assertion path=large-envelope" }
-            | Some _ -> { v = "fail"; extra = "want=contract panic-not-predicted-by-the-as-is-model path=large asis=diff" })
        | [ "panic"; "UnlimitedPrecision" ] ->
            let target_unlimited = match fixed_p with
              | Some p -> Zar.sign p = 0
